@@ -41,11 +41,33 @@ func VP_C08_Reset() {
 	if zzvp.Param("symcontent", 0) == 1 {
 		c2a = zzvp.Bytes("c2a", 1, "")
 	}
-	if zzvp.Choose(2) == 0 {
+	switch zzvp.Choose(2 + 2*zzvp.Param("kindchange", 1)) {
+	case 0:
 		zzvp.Assume(string(c2a) != string(c1a))
 		zzvp.WriteFile(w+"/"+f1, c2a)
 		vpOK(zzvp.Run("add", f1))
-	} else {
+	case 2:
+		// the second commit replaces the file f1 by a directory of that name
+		vpOK(zzvp.Run("rm", f1))
+		f1k := f1 + "/" + vpComp("fk", 1)
+		zzvp.WriteFile(w+"/"+f1k, c2a)
+		vpOK(zzvp.Run("add", f1))
+		f1 = f1k
+	case 3:
+		// the second commit replaces the top directory of f2 by a file of that name
+		d := f2
+		for i := len(f2) - 1; i >= 0; i-- {
+			if f2[i] == '/' {
+				d = f2[:i]
+			}
+		}
+		zzvp.Assume(d != f1)
+		vpOK(zzvp.Run("rm", f2))
+		zzvp.RemoveAll(w + "/" + d)
+		zzvp.WriteFile(w+"/"+d, c2a)
+		vpOK(zzvp.Run("add", d))
+		f2 = d
+	default:
 		// the second commit renames f1 (same bytes under another name)
 		f1b := vpPath("fr", 1, zzvp.Param("complen", 1))
 		zzvp.Assume(f1b != f1 && f1b != f2 && !vpHasDirPrefix(f2, f1b))
